@@ -289,12 +289,21 @@ MODEL_BOUNDS = ('Probability = u8; supports of <= 3 symbols; PRECISION in {8 (= 
 MODEL_OUTSIDE = ('supports > 3 symbols; Probability wider than u8; f64 tables; real Gaussian/Cauchy/Laplace/binomial CDF code (transcendental; replaced by the most general contract-respecting stub); '
                  'the ..._perfect constructors (optimisation loop over libm::log1p: not encodable); hash-table backed encoder models (std HashMap does not finish under CBMC)')
 
-PROPS['C03'] = dict(obligations=M_FIXED + M_UNIFORM + M_FLOAT + M_QUANT, bounds=MODEL_BOUNDS, outside=MODEL_OUTSIDE,
+# heap-backed (Vec / Box<[_]>) model families through engine L (allocator shims in irsym): CBMC does not finish on them
+def which5(cfg, tier, seed):
+    """one job per model family (the `which` selector is concretised: parallel jobs, nothing is lost)"""
+    return [dict(which=k) for k in range(5)]
+M_HEAP = [L('c03_heap_models', 'k_c03_heap_models_{cfg}', ['u8_p3', 'u16_p3'], ['u8_p3', 'u16_p3', 'u8_p4'], unwind=24, fixes=which5, explore_cap=dict(quick=400, thorough=3000))]
+
+PROPS['C03'] = dict(obligations=M_FIXED + M_UNIFORM + M_FLOAT + M_QUANT + M_HEAP, bounds=MODEL_BOUNDS, outside=MODEL_OUTSIDE,
                     assumptions=['float inputs satisfy the documented preconditions (finite, non-negative, positive normal sum); stub distribution: monotone table in [0,1]'],
                     stubs=['probability::distribution::{Distribution, Inverse} implemented by a symbolic table (TableDist)'])
 
-PROPS['C05'] = dict(obligations=[K('m_conv_view', 'models', 'conv_view', tq=900), K('m_conv_symbol_table', 'models', 'conv_symbol_table', tq=900), K('m_conv_lookup', 'models', 'conv_lookup', tq=900),
-                                 K('m_conv_generic_decoder', 'models', 'conv_generic_decoder', tq=900), K('m_conv_generic_lookup', 'models', 'conv_generic_lookup', tq=900), K('m_lazy_vs_eager_f32_n3_p4', 'models', 'lazy_vs_eager_f32_n3_p4', tq=900),
+PROPS['C05'] = dict(obligations=[K('m_conv_view', 'models', 'conv_view', tq=900), K('m_conv_symbol_table', 'models', 'conv_symbol_table', tq=900), 
+                                 L('c05_conversions', 'k_c05_conv_{cfg}', ['u8_p3', 'u16_p3'], ['u8_p3', 'u16_p3', 'u8_p4', 'u16_p4'], unwind=20, explore_cap=dict(quick=400, thorough=3000)),
+                                 # CBMC runs out of memory (> 60 GB) on the table-building conversions: attempted in the thorough tier only; engine L (c05_conversions) decides them
+                                 K('m_conv_lookup', 'models', 'conv_lookup', tiers=('thorough',), mem_gb=40),
+                                 K('m_conv_generic_decoder', 'models', 'conv_generic_decoder', tiers=('thorough',), mem_gb=40), K('m_conv_generic_lookup', 'models', 'conv_generic_lookup', tiers=('thorough',), mem_gb=40), K('m_lazy_vs_eager_f32_n3_p4', 'models', 'lazy_vs_eager_f32_n3_p4', tq=900),
                                  K('m_fixed_lookup_p3', 'models', 'fixed_lookup_p3', tiers=('thorough',), tt=7200, mem_gb=40), K('m_quantizer_u8_p4_sup3', 'models', 'quantizer_u8_p4_sup3', tq=1200)],
                     bounds=MODEL_BOUNDS + '; pairwise equality of (left cumulative, probability) on a symbolic symbol and of quantile_function on a symbolic quantile', outside=MODEL_OUTSIDE,
                     assumptions=[], stubs=['TableDist stub distribution'])
